@@ -10,10 +10,14 @@ package keeper
 //@ import corevm "github.com/ethereum/go-ethereum/core/vm"
 //@ import common "github.com/ethereum/go-ethereum/common"
 //@ import params "github.com/ethereum/go-ethereum/params"
+//@ import evmtypes "github.com/EscanBE/evermint/v12/x/evm/types"
 
 // ---------------------------------------------------------------------------------------------
 // state_transition_core.go — the copied go-ethereum state transition (C02, C04, C05, C06, C09)
 // ---------------------------------------------------------------------------------------------
+
+// evmtypes.EmptyCodeHash is keccak256(""): the definition of the ghost constant emptyCodeHash() (prelude/31_geth_vm.spec)
+//@ axiom empty_code_hash_def: common.BytesToHash(evmtypes.EmptyCodeHash) == emptyCodeHash()
 
 // Well-formed transition object as NewStateTransition builds it.
 //@ ghost func stOk(gpNonNil bool, msgNonNil bool, stateNonNil bool, evmNonNil bool) bool = gpNonNil && msgNonNil && stateNonNil && evmNonNil
@@ -47,7 +51,6 @@ package keeper
 //@   ensures[C04.refund_effect] sdbSupply[payload(st.state)] == old(sdbSupply[payload(st.state)]) + (st.SenderPaidTheFee ? st.gas * bigval[st.gasPrice] : 0)
 //@   panics[C05.refund_never_panics] never
 
-//@ import evmtypes "github.com/EscanBE/evermint/v12/x/evm/types"
 
 // preCheck: nonce / EOA / fee-cap admission rules of go-ethereum, then buyGas (no balance debit: the fee was
 // taken by the ante handler).
@@ -58,7 +61,7 @@ package keeper
 //@   requires st.gas == 0
 //@   modifies st.gas, st.initialGas, *st.gp
 //@   ensures[C06.nonce_eq] (err == nil && !st.msg.IsFake()) ==> (sdbNonce[payload(st.state)][st.msg.From()] == st.msg.Nonce() && st.msg.Nonce() + 1 < pow2(64))
-//@   ensures[C06.sender_is_eoa] (err == nil && !st.msg.IsFake()) ==> (sdbCodeHash[payload(st.state)][st.msg.From()] == common.BytesToHash(evmtypes.EmptyCodeHash) || sdbCodeHash[payload(st.state)][st.msg.From()] == zero(type(common.Hash)))
+//@   ensures[C06.sender_is_eoa] (err == nil && !st.msg.IsFake()) ==> isEmptyCodeHash(sdbCodeHash[payload(st.state)][st.msg.From()])
 //@   ensures[C09.fee_cap_ge_base_fee] (err == nil && londonActive(st.evm.ChainConfig(), bigval[st.evm.Context.BlockNumber]) && !(st.evm.Config.NoBaseFee && bigval[st.gasFeeCap] == 0 && bigval[st.gasTipCap] == 0)) ==> (bigval[st.gasFeeCap] >= bigval[st.evm.Context.BaseFee] && bigval[st.gasFeeCap] >= bigval[st.gasTipCap] && bigval[st.gasFeeCap] < pow2(256))
 //@   ensures[C05.buy_gas] err == nil ==> (st.initialGas == st.msg.Gas() && st.gas == st.msg.Gas() && *st.gp == old(*st.gp) - st.msg.Gas())
 //@   ensures[C05.precheck_fail] err != nil ==> (st.gas == old(st.gas) && st.initialGas == old(st.initialGas) && *st.gp == old(*st.gp))
@@ -72,12 +75,14 @@ package keeper
 //@   requires st.gas == 0 && st.value == st.msg.Value() && st.state == st.evm.StateDB
 //@   requires bigval[st.msg.Value()] >= 0 && sdbBal[payload(st.state)][st.msg.From()] >= 0
 //@   requires st.evm.Config.Debug ==> st.evm.Config.Tracer != nil
-//@   modifies st.gas, st.initialGas, *st.gp, sdbNonce[payload(st.state)], sdbBal[payload(st.state)], sdbSupply[payload(st.state)], sdbRefund[payload(st.state)], sdbCodeHash[payload(st.state)], sdbOther[payload(st.state)], elems(type(common.Address))
+//@   modifies st.gas, st.initialGas, *st.gp, sdbNonce[payload(st.state)], sdbBal[payload(st.state)], sdbSupply[payload(st.state)], sdbSupplyX[payload(st.state)], sdbRefund[payload(st.state)], sdbCodeHash[payload(st.state)], sdbOther[payload(st.state)], elems(type(common.Address))
 //@   ensures[C05.used_gas] err == nil ==> (res != nil && st.initialGas == st.msg.Gas() && st.gas <= st.initialGas && res.UsedGas == st.initialGas - st.gas)
 //@   ensures[C05.pool] err == nil ==> *st.gp == old(*st.gp) - res.UsedGas
 //@   ensures[C06.nonce_plus_one] (err == nil && !st.msg.IsFake()) ==> sdbNonce[payload(st.state)][st.msg.From()] == old(sdbNonce[payload(st.state)][st.msg.From()]) + 1
 //@   ensures[C06.nonce_matched] (err == nil && !st.msg.IsFake()) ==> old(sdbNonce[payload(st.state)][st.msg.From()]) == st.msg.Nonce()
 //@   ensures[C04.supply_delta] err == nil ==> sdbSupply[payload(st.state)] <= old(sdbSupply[payload(st.state)]) + (st.SenderPaidTheFee ? st.gas * bigval[st.gasPrice] : 0)
+//@   ensures[C04.supply_other_denoms] forall den string :: sdbSupplyX[payload(st.state)][den] <= old(sdbSupplyX[payload(st.state)][den])
+//@   ensures[C06.sender_still_eoa] (err == nil && !st.msg.IsFake()) ==> isEmptyCodeHash(sdbCodeHash[payload(st.state)][st.msg.From()])
 //@   ensures[C05.core_error_no_effect] err != nil ==> (sdbNonce[payload(st.state)] == old(sdbNonce[payload(st.state)]) && sdbBal[payload(st.state)] == old(sdbBal[payload(st.state)]) && sdbSupply[payload(st.state)] == old(sdbSupply[payload(st.state)]) && sdbCodeHash[payload(st.state)] == old(sdbCodeHash[payload(st.state)]))
 //@   panics never
 
@@ -173,7 +178,13 @@ package keeper
 //@   requires bigval[msg.Value()] >= 0
 //@   requires londonActive(cfg.ChainConfig, ctx.BlockHeight()) ==> cfg.BaseFee != nil
 //@   requires txConfig.TxType != nil ==> *txConfig.TxType <= 2
+//@   modifies wVersion[layer(ctx)], bankBal[layer(ctx)], bankSupply[layer(ctx)], acctSeq[layer(ctx)], acctExists[layer(ctx)], authVersion[layer(ctx)], trGas[layer(ctx)], trLogs[layer(ctx)], trReceipt[layer(ctx)], trHasReceipt[layer(ctx)], elems(type(common.Address))
 //@   ensures[C05.gas_used_le_limit] err == nil ==> (res != nil && res.GasUsed <= msg.Gas())
+//@   ensures[C06.nonce_advanced] (err == nil && commit && !msg.IsFake()) ==> (old(acctSeq[layer(ctx)][addrBytes(msg.From())]) == msg.Nonce() && acctSeq[layer(ctx)][addrBytes(msg.From())] == msg.Nonce() + 1)
+//@   ensures[C04.supply_evm_denom] (err == nil && commit) ==> bankSupply[layer(ctx)][evmDenomOf[layer(ctx)]] <= old(bankSupply[layer(ctx)][evmDenomOf[layer(ctx)]]) + (trFlagPaid[layer(ctx)] ? (msg.Gas() - res.GasUsed) * bigval[msg.GasPrice()] : 0)
+//@   ensures[C04.supply_other_denoms] (err == nil && commit) ==> (forall den string :: den != evmDenomOf[layer(ctx)] ==> bankSupply[layer(ctx)][den] <= old(bankSupply[layer(ctx)][den]))
+//@   ensures[C08.no_commit_no_persistent_change] !commit ==> (wVersion[layer(ctx)] == old(wVersion[layer(ctx)]) && bankBal[layer(ctx)] == old(bankBal[layer(ctx)]) && bankSupply[layer(ctx)] == old(bankSupply[layer(ctx)]) && acctSeq[layer(ctx)] == old(acctSeq[layer(ctx)]) && acctExists[layer(ctx)] == old(acctExists[layer(ctx)]))
+//@   ensures[C05.error_no_persistent_change,C04.error_no_persistent_change] err != nil ==> (bankBal[layer(ctx)] == old(bankBal[layer(ctx)]) && bankSupply[layer(ctx)] == old(bankSupply[layer(ctx)]) && acctSeq[layer(ctx)] == old(acctSeq[layer(ctx)]))
 //@   ensures[C05.gas_recorded,C13.gas_recorded] err == nil ==> trGas[layer(ctx)][max(1, trCount[layer(ctx)]) - 1] == res.GasUsed
 //@   ensures[C13.cumulative_gas,C05.cumulative_gas] err == nil ==> (exists status int, bloom ethtypes.Bloom, lb ref, lo int, ll int :: bytes(res.MarshalledReceipt) == rlpReceipt(*txConfig.TxType, status, (res.GasUsed + sumTo(old(trGas[layer(ctx)]), txConfig.TxIndex)) % pow2(64), bloom, lb, lo, ll) && (status == 1) == (res.VmError == "") && (status == 0 || status == 1))
 //@   ensures[C13.receipt_stored] err == nil ==> (trReceipt[layer(ctx)][max(1, trCount[layer(ctx)]) - 1] == bytes(res.MarshalledReceipt) && trCount[layer(ctx)] == old(trCount[layer(ctx)]))
@@ -211,6 +222,11 @@ package keeper
 //@   requires k != nil && tx != nil && ctx.GasMeter() != nil
 //@   requires txValue(tx) >= 0
 //@   requires txType(tx) <= 2 && gmLimit(payload(ctx.GasMeter())) == txGas(tx) && gmConsumed[payload(ctx.GasMeter())] <= gmLimit(payload(ctx.GasMeter()))
+//@   modifies wVersion[layer(ctx)], bankBal[layer(ctx)], bankSupply[layer(ctx)], acctSeq[layer(ctx)], acctExists[layer(ctx)], authVersion[layer(ctx)], trGas[layer(ctx)], trLogs[layer(ctx)], trReceipt[layer(ctx)], trHasReceipt[layer(ctx)], gmConsumed[payload(ctx.GasMeter())], gmToLimit[payload(ctx.GasMeter())], elems(type(common.Address))
+//@   ensures[C06.nonce_advanced] err == nil ==> (old(acctSeq[layer(ctx)][addrBytes(txSender(tx))]) == txNonce(tx) && acctSeq[layer(ctx)][addrBytes(txSender(tx))] == txNonce(tx) + 1)
+//@   ensures[C04.supply_evm_denom] err == nil ==> bankSupply[layer(ctx)][evmDenomOf[layer(ctx)]] <= old(bankSupply[layer(ctx)][evmDenomOf[layer(ctx)]]) + (trFlagPaid[layer(ctx)] ? (txGas(tx) - res.GasUsed) * min(txTipCap(tx) + fmBaseFee[layer(ctx)], txFeeCap(tx)) : 0)
+//@   ensures[C04.supply_other_denoms] err == nil ==> (forall den string :: den != evmDenomOf[layer(ctx)] ==> bankSupply[layer(ctx)][den] <= old(bankSupply[layer(ctx)][den]))
+//@   ensures[C05.error_no_persistent_change,C04.error_no_persistent_change] err != nil ==> (bankBal[layer(ctx)] == old(bankBal[layer(ctx)]) && bankSupply[layer(ctx)] == old(bankSupply[layer(ctx)]) && acctSeq[layer(ctx)] == old(acctSeq[layer(ctx)]))
 //@   ensures[C05.consensus_gas_is_receipt_gas] err == nil ==> (res != nil && gmConsumed[payload(ctx.GasMeter())] == res.GasUsed && res.GasUsed <= txGas(tx) && trGas[layer(ctx)][max(1, trCount[layer(ctx)]) - 1] == res.GasUsed)
 //@   ensures[C05.consume_all_on_core_error] (err != nil && coinbaseKnown(layer(ctx), hdr(ctx)) && txSigOk(tx)) ==> gmConsumed[payload(ctx.GasMeter())] == gmLimit(payload(ctx.GasMeter()))
 //@   panics any
@@ -227,9 +243,6 @@ package keeper
 //@ import bankkeeper "github.com/cosmos/cosmos-sdk/x/bank/keeper"
 
 // the stored x/evm Params record per store layer (trusted summary of store + protobuf codec)
-//@ ghost var evmDenomOf map[int]string
-//@ ghost var evmEnableCreate map[int]bool
-//@ ghost var evmEnableCall map[int]bool
 //@ func (k Keeper) GetParams(ctx sdk.Context) (params evmtypes.Params)
 //@   assumed
 //@   modifies nothing
